@@ -599,3 +599,77 @@ def rule_kwargs_kept(db: ProgramDB) -> List[Instance]:
     if n < 3:
         raise AnalysisError("the functions that carry the keyword arguments of a term were not found")
     return out
+
+
+# ---------------------------------------------------------------------------------- VALUE-IDENTITY
+def rule_value_identity(db: ProgramDB) -> List[Instance]:
+    """Everything that compares bound values (duplicate suppression, the cache index, joins through a shared variable, the
+    for_all key) goes through HashedValue: two wrapped values are the same value exactly when their identifiers agree - the
+    hash is the identifier, so equality has to be the identifier as well.  Decided by evaluating __eq__ for two wrappers in
+    the four combinations of 'same identifier' and 'equal payload'."""
+    from ..boolexpr import eval_bool
+    from ..cfg import CFG
+    out = []
+    hv = db.cls("HashedValue")
+    m = hv.methods.get("__eq__")
+    h = hv.methods.get("__hash__")
+    if m is None or h is None:
+        raise AnalysisError("HashedValue.__eq__ / __hash__ not found")
+    hashed_by_id = any(isinstance(x, ast.Attribute) and x.attr == "id_" for x in own_nodes(h.node)) and \
+        not any(isinstance(x, ast.Attribute) and x.attr == "value" for x in own_nodes(h.node))
+    op = m.positional_params[1]
+    cfg = CFG(m)
+
+    def atom(e):
+        u = unparse(e)
+        if isinstance(e, ast.Compare) and len(e.ops) == 1 and isinstance(e.ops[0], (ast.Eq, ast.NotEq, ast.Is, ast.IsNot)):
+            l, r = unparse(e.left), unparse(e.comparators[0])
+            neg = "!" if isinstance(e.ops[0], (ast.NotEq, ast.IsNot)) else ""
+            if {l, r} == {"self.id_", f"{op}.id_"}:
+                return neg + "ID"
+            if {l, r} == {"self.value", f"{op}.value"}:
+                return neg + "PAYLOAD"
+            if {l, r} == {"self", op}:
+                return neg + "SAMEOBJ"
+            if {l, r} == {"hash(self)", f"hash({op})"}:
+                return neg + "ID"
+        if isinstance(e, ast.Call) and dotted(e.func) == "isinstance" and len(e.args) == 2 and unparse(e.args[0]) == op:
+            c = unparse(e.args[1])
+            return "IS_WILD" if c in ("ALL", "All") else ("IS_HV" if c.endswith("HashedValue") else None)
+        return None
+    for same_id in (True, False):
+        for payload in (True, False):
+            env = {"ID": same_id, "PAYLOAD": payload, "SAMEOBJ": False, "IS_WILD": False, "IS_HV": True}
+            cur = cfg.entry
+            result = None
+            steps = 0
+            try:
+                while steps < 200:
+                    steps += 1
+                    nd = cfg.nodes[cur]
+                    if nd.kind == "return":
+                        result = bool(eval_bool(nd.ast.value, atom, env)) if nd.ast.value is not None else False
+                        break
+                    if nd.id == cfg.exit:
+                        result = False
+                        break
+                    nxt = [e for e in cfg.succ[cur] if e.kind == "n"]
+                    if nd.kind == "test":
+                        t = bool(eval_bool(nd.stmt.test, atom, env))
+                        nxt = [e for e in nxt if e.label == ("T" if t else "F")]
+                    if len(nxt) != 1:
+                        raise AnalysisError(f"`{nd.src()[:40]}`: {len(nxt)} successors")
+                    cur = nxt[0].dst
+            except (AnalysisError, KeyError) as ex:
+                out.append(inst("VALUE-IDENTITY", UNDECIDED, m, f"HashedValue.__eq__[same id={same_id}, equal payload={payload}]", f"not decidable: {ex}", line=m.lineno))
+                continue
+            ok = result == same_id
+            out.append(inst("VALUE-IDENTITY", HOLDS if ok else VIOLATION, m, f"HashedValue.__eq__[same id={same_id}, equal payload={payload}]",
+                            f"equal: {result}" if ok else
+                            f"two wrappers with {'the same' if same_id else 'different'} identifiers and {'equal' if payload else 'unequal'} payloads compare "
+                            f"{'equal' if result else 'unequal'}: equality no longer is identity of the identifier (which the hash is), so two distinct objects "
+                            f"that compare equal (dataclasses with eq=True, equal strings in two fields) are one value for the cache coverage test and the "
+                            f"duplicate suppression - rows are answered from another object's cache entry or dropped as duplicates", line=m.lineno))
+    out.append(inst("VALUE-IDENTITY", HOLDS if hashed_by_id else VIOLATION, h, "HashedValue.__hash__[the identifier]",
+                    "the hash is the hash of the identifier" if hashed_by_id else "the hash is not derived from the identifier alone", line=h.lineno))
+    return out
